@@ -444,6 +444,60 @@ def rename_inside_result_transaction(ctx, rid):
 
 
 # ------------------------------------------------------------------------------------------------
+# R10.10  an interrupted creation of the database is finished by the next run (F-Q)
+
+def interrupted_creation_is_recoverable(ctx, rid):
+    ctx.rule(rid, "ProcessState::init's choice between `create the schema` and `check the schema version` depends on what the database contains (a query), not on the existence of the file alone: a first invocation killed before its creating transaction commits leaves an empty file that the next run must initialise")
+    prog = ctx.prog
+    I = prog.one(r"state::ProcessState::init")
+    ba = BA.of(I)
+    from core import str_consts
+    creates = sorted({bb for (bb, _, txt, _) in str_consts(I) if re.match(r"\s*create\s+table", txt, re.I)})
+    if not ctx.floor(rid, "create-table statements in init", len(creates), 4):
+        return
+    # the switch that separates the creating side from the checking side
+    guards = []
+    for sw in sorted(ba.live):
+        bs = ba.bool_switch(sw)
+        if not bs:
+            continue
+        t_t, f_t = bs[0], bs[1]
+        for side in (t_t, f_t):
+            if all(ba.edge_dominates((sw, side), c) for c in creates):
+                guards.append((sw, side))
+    if not guards:
+        raise AnchorError("no boolean test separates the schema-creating statements of %s" % I.key)
+    sw = max(guards, key=lambda g: g[0])[0] if len(guards) > 1 else guards[0][0]
+    # closest guard = the one dominated by all the others
+    for g, _ in guards:
+        if all(ba.dominates(o, g) for o, _ in guards):
+            sw = g
+    d = op_local(I.blocks[sw]["term"]["discr"])
+    queries = [i for i in ba.all_calls() if any(re.fullmatch(r"rusqlite::(Connection|Transaction|Statement)(<.*>)?::(query_row|query|query_map|exists|prepare|pragma_query_value|query_row_and_then)|rusqlite::Connection::query_row", p) for p in callee_paths(I.blocks[i]["term"]))
+               and ba.path([i], [sw], incl=False) is not None and not any(ba.edge_dominates(g, i) for g in guards)]
+    tnt = taint(I, seeds={I.blocks[i]["term"]["dest"]["l"] for i in queries}, mode="derived") if queries else set()
+    chain = set(ba.ref_chain(d)) | {d}
+    # follow plain copies / negations of the tested local back
+    seen = set()
+    work = list(chain)
+    while work:
+        x = work.pop()
+        if x in seen:
+            continue
+        seen.add(x)
+        for dd in ba.defs.get(x, []):
+            if dd[0] == "stmt":
+                from core import rvalue_places
+                for pl in rvalue_places(dd[3]):
+                    if pl is not None:
+                        work.append(pl["l"])
+    ok = any(x in tnt for x in seen)
+    ctx.ob(rid, "%s|creation-decided-on-database-content" % I.key, ok, where=ctx.where(I, sw),
+           detail="the create/check decision also derives from a query of the database" if ok else
+           "the create/check decision rests on the file's existence only: after a kill between the creation of the file and the commit of the schema every later run fails with `no such table: Schema`")
+
+
+# ------------------------------------------------------------------------------------------------
 # R12.9  every `m` dependency is descended into
 
 def every_modified_dep_is_descended(ctx, rid):
@@ -595,7 +649,7 @@ TABLE = {
     "C09": [("R9.8", borrow("C12", "R12.2", None, "a lock id that is not registered turns a cycle into an endless fcntl wait"))],
     "C17": [("R17.6", ood_lists_every_nonclean), ("R17.7", check_never_refreshes_stamps)],
     "C18": [("R18.7", done_status_type_agrees), ("R18.8", seen_only_when_shown)],
-    "C10": [("R10.8", rename_inside_result_transaction),
+    "C10": [("R10.8", rename_inside_result_transaction), ("R10.10", interrupted_creation_is_recoverable),
             ("R10.9", borrow("C05", "R5.3", None, "a job that dies (non-zero or by signal) has its un-redeclared edges deleted by zap_deps2, so it must be marked failed in the same transaction or it looks clean after the kill"))],
     "C12": [("R12.9", every_modified_dep_is_descended)],
     "C16": [("R16.7", state_dir_creation_is_idempotent)],
